@@ -41,12 +41,18 @@ type c04Case struct {
 	// Reorder: the configuration lists the interfaces as eth2, eth1, eth0 (not in name
 	// order; the advertising interface under test last).
 	Reorder bool `json:"interfaces_listed_in_reverse,omitempty"`
+	// Large: the advertising interface has 60 more prefix stanzas (its RA is far larger
+	// than the link MTU of 1500 the dialled interface reports).
+	Large bool `json:"sixty_more_prefixes,omitempty"`
 }
 
 func (c c04Case) String() string {
 	o := ""
 	if c.Reorder {
 		o = " reversed-config"
+	}
+	if c.Large {
+		o += " +60-prefixes"
 	}
 	return fmt.Sprintf("life=%q fwd=%t probe=%t%s [%s]", c.Lifetime, c.Fwd, c.Probe, o, strings.Join(c.Events, " "))
 }
@@ -62,6 +68,11 @@ func c04Doc(c c04Case) ref.Doc {
 		{Scalars: ref.Table{"name": "eth1", "advertise": true, "default_lifetime": "100s", "max_interval": "50s"}},
 		{Scalars: ref.Table{"name": "eth2", "monitor": true}},
 	}}
+	if c.Large {
+		for i := 0; i < 60; i++ {
+			d.Ifaces[0].Prefix = append(d.Ifaces[0].Prefix, ref.Table{"prefix": fmt.Sprintf("2001:db8:%x::/64", 0x100+i)})
+		}
+	}
 	if c.Reorder {
 		d.Ifaces[0], d.Ifaces[2] = d.Ifaces[2], d.Ifaces[0]
 	}
@@ -331,7 +342,7 @@ func c04Run(t *testing.T, c c04Case) (x *vsched.Exec, out [][2]string) {
 func TestVerifC04(t *testing.T) {
 	r := ev.Begin("C04", "histories")
 	defer r.End(t)
-	r.Rule = "histories = all sequences of <=K events over {flip forwarding, periodic tick, unicast RS, RS from ::, RA from another router, forwarding sysctl becomes unreadable (ends the history)} followed by termination, x default_lifetime {auto, 0s, 1234s} x initial forwarding {on, off} x {metrics+API probed after every event, only at the end}, on the real Advertiser.Run (min=max=4s, virtual clock, canonical schedule) with Metrics and the debug API handler built over the same config.Interface values plus a second advertising and a monitoring interface (configuration listed eth0, eth1, eth2 when probing after every event, eth2, eth1, eth0 when probing at the end); oracle: every transmitted RA deep-equals the reference RA for the forwarding state at that moment (lifetime 0 when off, final RA 0), log line count = overridden generations, forwarding and misconfiguration gauges and API router_lifetime_seconds track the state per interface; non-trivial = history contains a flip or starts non-forwarding; distinct = distinct case"
+	r.Rule = "histories = all sequences of <=K events over {flip forwarding, periodic tick, unicast RS, RS from ::, RA from another router, forwarding sysctl becomes unreadable (ends the history)} followed by termination, x default_lifetime {auto, 0s, 1234s} x initial forwarding {on, off} x {metrics+API probed after every event, only at the end}, on the real Advertiser.Run (min=max=4s, virtual clock, canonical schedule) with Metrics and the debug API handler built over the same config.Interface values plus a second advertising and a monitoring interface (configuration listed eth0, eth1, eth2 when probing after every event, eth2, eth1, eth0 when probing at the end); plus 6 short histories on an interface with 60 more prefix stanzas (RA larger than the link MTU); oracle: every transmitted RA deep-equals the reference RA for the forwarding state at that moment (lifetime 0 when off, final RA 0), log line count = overridden generations, forwarding and misconfiguration gauges and API router_lifetime_seconds track the state per interface; non-trivial = history contains a flip or starts non-forwarding; distinct = distinct case"
 	if r.Replay != nil {
 		var c c04Case
 		if err := json.Unmarshal(r.Replay, &c); err != nil {
@@ -387,6 +398,28 @@ func TestVerifC04(t *testing.T) {
 		}
 		return !r.OverBudget()
 	})
+	// An RA much larger than the link MTU (60 more prefix options): every message the
+	// advertiser writes is judged like any other RA.
+	for _, evs := range [][]string{nil, {"tick"}, {"rs-uni"}, {"flip"}, {"flip", "rs-uni"}, {"rs-unspec", "flip", "tick"}} {
+		for _, life := range []string{"", "1234s"} {
+			for _, fwd := range []bool{true, false} {
+				idx++
+				if !r.Mine(idx) {
+					continue
+				}
+				c := c04Case{Lifetime: life, Fwd: fwd, Probe: true, Events: evs, Large: true}
+				x, vs := c04Run(t, c)
+				r.Case(c.String(), true)
+				r.Count("states", 1)
+				if x != nil {
+					r.Count("transitions", int64(x.Steps))
+				}
+				for _, v := range vs {
+					r.Violation(v[0], c.String()+": "+v[1], c)
+				}
+			}
+		}
+	}
 	if r.OverBudget() {
 		r.Capped("wall-clock budget reached")
 	}
